@@ -311,6 +311,26 @@ func genMWCase(t *rapid.T, g mwGenCfg) MWCase {
 		pos := rapid.IntRange(0, len(c.Steps)).Draw(t, "vtpos")
 		c.Steps = append(append(append([]MWStep{}, c.Steps[:pos]...), pat...), c.Steps[pos:]...)
 	}
+	if g.wVacuum > 0 && rapid.IntRange(0, 5).Draw(t, "emptiedpattern") == 0 {
+		// Targeted region: a table emptied completely (DELETE without WHERE), vacuumed with a
+		// cutoff after the delete time but before the creation time of any version (write times
+		// lie years before "now"), then with the year-2100 cutoff: the first vacuum purges every
+		// row and must keep the (empty) current version, the second reclaims all history.
+		w := rapid.IntRange(0, c.NWriters-1).Draw(t, "emw")
+		pat := []MWStep{
+			{Op: "refresh", W: w},
+			{Op: "stmt", W: w, Stmts: []Stmt{{Kind: "del", T: 50*256 + 3}}},
+			{Op: "vacuum", W: w, Cut: 50*256 + 4},
+			{Op: "observe"},
+			// (the next vacuum re-opens every version recorded so far that was created after its
+			// cutoff: among them the empty version the first one committed)
+			{Op: "vacuum", W: w, Cut: 50*256 + 5},
+			{Op: "vacuum", W: w, Cut: -1},
+			{Op: "observe"},
+		}
+		pos := rapid.IntRange(0, len(c.Steps)).Draw(t, "empos")
+		c.Steps = append(append(append([]MWStep{}, c.Steps[:pos]...), pat...), c.Steps[pos:]...)
+	}
 	if g.wVacuum > 0 && c.NKeys >= 2 && rapid.IntRange(0, 2).Draw(t, "pattern2") == 0 {
 		// Targeted region: two rows deleted at different times and a cutoff between the two
 		// delete times (or equal to the later one): one marker must go, the other must stay
